@@ -17,7 +17,9 @@
 //   ar <op> <bits> [<bits>|<int>]          one arithmetic primitive on the host FPU/libm
 //                                          (add mul div fmod modf round pow): ties the
 //                                          model's software binary64 to the hardware
-// result of pf: "<ret> <hex of the characters handed to the callback>"
+// result of pf: "<ret> <hex of the characters handed to the callback>" for non-finite and zero arguments; for a finite
+//   non-zero argument (round 3c) the TOLERANT observable of namespace canon: the routine's own text with the number
+//   replaced by the correctly rounded reference digits + the verdict within|outside the oracle's allowance
 // result of ar: the 16 hex digits of the result (modf: "frac int")
 //
 // oracle of pf (independent of the Lean model):
@@ -577,6 +579,170 @@ static bool seen(const Dir &d, double xd)
 }
 } // namespace tie
 
+
+// ---------------------------------------------------------------- round 3c: the TOLERANT observable
+// The property fixes the digits of a finite conversion only up to an allowance (half a unit of the last printed digit
+// + a few ulps of the argument); the result field of a finite, non-zero conversion is therefore (the same on the side
+// of the driver: lean/IgrisModel/C13/Canon.lean, there in Rat)
+//   tier A (f, e, #g and the number of the routine's text has the structure of the reference number: the same counts of
+//       integer / fraction / exponent digits, point, exponent letter)
+//       "<ret> <hex of the routine's text with the number replaced by the REFERENCE number> <within|outside>"
+//   tier B (g without #: the digit count after zero removal depends on the last digits; texts whose structure
+//       differs from the reference: carry into the next power of ten, the %g style of finding C13-g-style-carry)
+//       "S c<ret == emitted> i<iso::shape of the routine's text> <reference number> <within|outside>"
+// REFERENCE number: the correctly rounded (half-even) decimal of the exact argument for the directive, in GMP
+// rationals - a function of the input alone.  verdict: the routine's OWN text, read back exactly, within
+// u/2 + K ulps of the argument (u from the exact decimal exponent of the argument, K = allow_ulps with the exact
+// decimal exponent; `strict` as the oracle).  The oracle (judge) is unchanged and judges the real text.
+namespace canon
+{
+using tie::pow10q;
+using tie::ilog10q;
+static mpz_class rhe(const mpq_class &q)
+{
+    mpz_class fl;
+    mpz_fdiv_q(fl.get_mpz_t(), q.get_num_mpz_t(), q.get_den_mpz_t());
+    mpq_class r = q - mpq_class(fl);
+    int c = cmp(r, mpq_class(1, 2));
+    if (c > 0) return fl + 1;
+    if (c < 0) return fl;
+    return mpz_even_p(fl.get_mpz_t()) ? fl : mpz_class(fl + 1);
+}
+static std::string mant(const mpz_class &n, long F, bool point)
+{
+    std::string ds = n.get_str();
+    if ((long)ds.size() < F + 1) ds = std::string((size_t)(F + 1) - ds.size(), '0') + ds;
+    return ds.substr(0, ds.size() - (size_t)F) + (F > 0 || point ? "." : "") + ds.substr(ds.size() - (size_t)F);
+}
+static std::string exp_field(bool upper, long X)
+{
+    std::string d = std::to_string(labs(X));
+    if (d.size() < 2) d = "0" + d;
+    return std::string(1, upper ? 'E' : 'e') + (X < 0 ? "-" : "+") + d;
+}
+static void ref_e(const mpq_class &x, long F, mpz_class &n, long &X)
+{
+    X = ilog10q(x);
+    n = rhe(x / pow10q(X - F));
+    mpz_class lim;
+    mpz_ui_pow_ui(lim.get_mpz_t(), 10, (unsigned long)(F + 1));
+    if (n >= lim) { n /= 10; X++; }
+}
+static std::string ref_num(char c, bool hash, bool upper, bool has_prec, long prec, const mpq_class &x)
+{
+    long P = has_prec ? prec : 6;
+    mpz_class n;
+    long X;
+    if (c == 'f') return mant(rhe(x * pow10q(P)), P, hash);
+    if (c == 'e') { ref_e(x, P, n, X); return mant(n, P, hash) + exp_field(upper, X); }
+    long Pg = P == 0 ? 1 : P;
+    ref_e(x, Pg - 1, n, X);
+    if (X < -4 || X >= Pg) return mant(n, Pg - 1, hash) + exp_field(upper, X);
+    long F = Pg - 1 - X;
+    return mant(rhe(x * pow10q(F)), F, hash);
+}
+static mpq_class pow2q(long e)
+{
+    mpz_class p = mpz_class(1) << (unsigned long)labs(e);
+    return e >= 0 ? mpq_class(p) : mpq_class(mpz_class(1), p);
+}
+static mpq_class ulp_q(double ax)
+{
+    if (ax < DBL_MIN) return pow2q(-1074);
+    int e;
+    frexp(ax, &e);
+    return pow2q(e - 53);
+}
+static long allow_exact(char c, bool has_prec, long prec, const mpq_class &x, bool strict)
+{
+    if (strict) return ALLOW_BASE;
+    long X = ilog10q(x), P = has_prec ? prec : 6, steps = 0;
+    if (c != 'f') steps += labs(X) + 1;
+    long fracd = c == 'g' ? (P ? P : 1) + (X < 0 && X >= -4 ? -X : 0) : P;
+    long lead = (c == 'f' || (c == 'g' && X >= -4)) && X < 0 ? -X : 0;
+    steps += std::min(fracd, lead + 17);
+    if (c != 'e' && X > 15) steps += X - 15;
+    return ALLOW_BASE + steps;
+}
+// structure of a number text: digits -> d, sign of the exponent -> s (the exponent VALUE is judged by the verdict: an
+// argument within the allowance of a power of ten may be printed 9.99..e-20 or 1.00..e-19)
+static std::string mask_num(const std::string &t)
+{
+    std::string r = t;
+    for (size_t i = 0; i < r.size(); i++)
+    {
+        if (r[i] >= '0' && r[i] <= '9') r[i] = 'd';
+        else if (r[i] == '+' || r[i] == '-') r[i] = 's';
+    }
+    return r;
+}
+static bool subst_ref(const std::string &body, const std::string &R, std::string &res)
+{
+    size_t i = 0, n = body.size();
+    while (i < n && body[i] == ' ') i++;
+    size_t sg = i;
+    if (i < n && (body[i] == '+' || body[i] == '-')) i++;
+    size_t j = n;
+    while (j > i && body[j - 1] == ' ') j--;
+    std::string N = body.substr(i, j - i);
+    if (N.size() < R.size()) return false;
+    size_t Z = N.size() - R.size();
+    for (size_t k = 0; k < Z; k++) if (N[k] != '0') return false;
+    if (mask_num(N.substr(Z)) != mask_num(R)) return false;
+    (void)sg;
+    res = body.substr(0, i) + N.substr(0, Z) + R + body.substr(j);
+    return true;
+}
+// Long texts (precision up to 400 000 in the pfd ops): every finite binary64 has at most 1074 fraction digits (767
+// significant digits); a fraction longer than FCAP digits whose digits beyond FCAP are all zeros is cut to FCAP digits,
+// in the routine's text and in the reference alike (reference at a precision capped at PCAP).
+static const size_t FCAP = 1100;
+static const long PCAP = 1200;
+static std::string cut_frac(const std::string &body)
+{
+    size_t a = body.find('.');
+    if (a == std::string::npos) return body;
+    size_t e = a + 1;
+    while (e < body.size() && body[e] >= '0' && body[e] <= '9') e++;
+    size_t fl = e - a - 1;
+    if (fl <= FCAP) return body;
+    for (size_t k = a + 1 + FCAP; k < e; k++) if (body[k] != '0') return body;
+    return body.substr(0, a + 1 + FCAP) + body.substr(e);
+}
+// applies: finite, non-zero, width <= 5000.  `tierA` / `within_` report the tier and the verdict (tags)
+static bool applies(const Dir &d, double x)
+{
+    return d.ok && std::isfinite(x) && x != 0 && d.width <= 5000;
+}
+static std::string line(const Dir &d, double xd, int ret, const bytes &out, bool strict, bool *tierA = 0, bool *within_ = 0)
+{
+    std::string outs(out.begin(), out.end());
+    std::string body0 = outs.substr(d.pre.size(), outs.size() - d.pre.size() - d.post.size());
+    std::string body = cut_frac(body0);
+    char c = (char)tolower(d.conv);
+    bool upper = isupper((unsigned char)d.conv);
+    long precC = d.prec > PCAP ? PCAP : d.prec;
+    long P = d.has_prec ? precC : 6;
+    mpq_class x(fabs(xd));
+    mpq_class u = c == 'f' ? pow10q(-P) : c == 'e' ? pow10q(ilog10q(x) - P) : pow10q(ilog10q(x) - (P == 0 ? 1 : P) + 1);
+    mpq_class err = abs(tie::text_value(body) - x);
+    bool in = err <= u / 2 + mpq_class(allow_exact(c, d.has_prec, precC, x, strict)) * ulp_q(fabs(xd));
+    std::string v = in ? "within" : "outside";
+    if (within_) *within_ = in;
+    if (tierA) *tierA = false;
+    std::string b;
+    if (!(c == 'g' && !d.hash) && subst_ref(body, cut_frac(ref_num(c, d.hash, upper, d.has_prec, precC, x)), b))
+    {
+        if (tierA) *tierA = true;
+        std::string t = d.pre + b + d.post;
+        return std::to_string(ret) + " " + hex(bytes(t.begin(), t.end())) + " " + v;
+    }
+    return std::string("S c") + (ret == (int)out.size() ? "1" : "0") + " i" +
+           (body0.size() > 6000 ? "-" : iso::shape(d, std::signbit(xd), body0) ? "1" : "0") + " " +
+           cut_frac(ref_num(c, true, upper, d.has_prec, precC, x)) + " " + v;
+}
+} // namespace canon
+
 // unit of the last digit the directive asks for, given what was printed
 static long double unit_of(const Dir &d, const Shape &S, double x)
 {
@@ -703,9 +869,17 @@ static void judge(const Dir &d, double x, int ret, const Sink &s, const std::str
         return;
     }
     {
+        // round 3c: the tie classes of round 3 are tags only; the result field is the tolerant observable
         std::string canon;
-        if (tie::canon(d, x, body, canon)) { o.result = canon; o.tag("tie-class"); }
-        else if (tie::fine(d, x) && tie::seen(d, x)) { o.result = "Tf"; o.tag("tie-seen-fine"); }
+        if (tie::canon(d, x, body, canon)) o.tag("tie-class");
+        else if (tie::fine(d, x) && tie::seen(d, x)) o.tag("tie-seen-fine");
+        if (canon::applies(d, x))
+        {
+            bool ta = false, in = false;
+            o.result = canon::line(d, x, ret, s.out, strict, &ta, &in);
+            o.tag(ta ? "obs-tierA" : "obs-tierB");
+            o.tag(in ? "obs-within" : "obs-outside");
+        }
     }
     Shape S = check_shape(d, body, x);
     if (!S.ok) { o.fail("shape: " + S.why + " igris <" + outs + "> glibc <" + refs + ">"); return; }
@@ -862,9 +1036,8 @@ static std::string float_field(const std::string &fmt, const std::vector<long> &
     std::string outs(out.begin(), out.end());
     if (outs.size() < d.pre.size() + d.post.size()) return raw;
     std::string body = outs.substr(d.pre.size(), outs.size() - d.pre.size() - d.post.size());
-    std::string c;
-    if (tie::canon(d, x, body, c)) return c;
-    if (tie::fine(d, x) && tie::seen(d, x)) return "Tf";
+    if (outs.compare(0, d.pre.size(), d.pre) != 0 || outs.compare(outs.size() - d.post.size(), d.post.size(), d.post) != 0) return raw;
+    if (canon::applies(d, x)) return canon::line(d, x, ret, out, false);
     return raw;
 }
 
@@ -1551,6 +1724,22 @@ static void gen(rng &R, const std::string &tier)
         puts("shm 2567 0 31303030303030");                 // %g 1000000 (finding C13-g-style-carry: rejected)
     }
 
+    // ---- round 3c: type-width boundaries of the INTEGER part (2^31 2^32 2^53 2^63 2^64 2^65, both neighbours, both
+    //      signs) in fixed notation: an integer fast path through (unsigned) long / long long breaks exactly there
+    //      (seeded change C13-intpart-ull-fastpath-2pow64 shows at +-2^64 only)
+    {
+        static const int pw[] = {31, 32, 53, 63, 64, 65};
+        static const char *fm[] = {"%f", "%F", "%.0f", "%.3f", "%#.0f", "%+.1f", "%030.2f", "%-30.1f|", "%.25g", "%.21G", "%e", "%.20e"};
+        for (int k : pw)
+            for (int sg = 0; sg < 2; sg++)
+                for (int nb = -1; nb <= 1; nb++)
+                {
+                    double v = ldexp(1.0, k);
+                    if (nb) v = nextafter(v, nb < 0 ? 0.0 : INFINITY);
+                    if (sg) v = -v;
+                    for (const char *f : fm) G.emit_pf(f, v, {});
+                }
+    }
     // ---- round 3: constants of the compiled code, calls before main(), re-entrancy, direct calls of print_f
     puts("consts");
     for (int i = 0; i < PM_N; i++) printf("pm %d %s %s\n", i, hex(std::string(PM[i].fmt)).c_str(), hexn(PM[i].bits, 16).c_str());
